@@ -172,7 +172,7 @@ def candidates():
     add("unassignable", "setitem", "m.B.foo[[1]] = 2", "unhashable-key")
     # other refusals
     add("out-of-scope", "relref", "m.A.relref(rr=m.B.foo)", "has-subs")
-    add("out-of-scope", "relref", "m.Z0.relref(rr=m.B.foo); m.E.add_bases(m.Z0)", "two-steps")
+    add("out-of-scope", "add_bases", "m.Z0.relref(rr=m.B.foo); m.E.add_bases(m.Z0)", "after-relref")
     add("out-of-scope", "add_bases", "m.E.add_bases(m.RB)")
     add("out-of-scope", "add_bases", "m.Sub.add_bases(m.RB)", "parametrised-space")
     add("out-of-scope", "new_space", "m.new_space('ZZ', bases=m.RB)")
@@ -327,12 +327,18 @@ def make_script(spec0, items, pre, code, mode, setup=None):
         L.append("print('unchanged:', after == before)")
         L.append("sys.exit(1 if raised is not None and after != before else 0)")
     else:
-        L.append("print(snap(m))")
+        L.append("print('accepted' if raised is None else 'rejected')")
         L.append("sys.exit(1 if raised is None else 0)")
     return "\n".join(L) + "\n"
 
 
 def run_case(pre, cand, spec0, items):
+    key = ("reject", tuple(map(repr, pre)), cand[3])
+    return guarded(lambda: _run_case(pre, cand, spec0, items), key, (cand[0], cand[1]) + tuple(cand[2]),
+                   "candidate %s" % cand[3])
+
+
+def _run_case(pre, cand, spec0, items):
     reason, opname, detail, code = cand
     key = ("reject", tuple(map(repr, pre)), code)
     rec = {"key": key, "nontrivial": False, "notes": []}
